@@ -93,6 +93,8 @@ def lift(v):
 
     if isinstance(v, SV):
         return v.kind, v.term
+    if type(v).__name__ == "LazyStr":
+        return lift(v.force())
     if isinstance(v, bool):
         return "bool", z3.BoolVal(v)
     if isinstance(v, enum.IntEnum):
@@ -116,6 +118,8 @@ def lift(v):
 
 def to_any(v):
     """Value -> PYVAL term."""
+    if type(v).__name__ == "LazyStr":
+        v = v.force()
     if v is None:
         return PYVAL.none
     kind, t = lift(v)
